@@ -188,7 +188,7 @@ def reader_case(job, acc: Acc):
 # --------------------------------------------------------------------- uri
 # "a" + U+0301 is a decomposed sequence and U+212B a singleton: both change under Unicode normalisation, and a path
 # is a sequence of code points, not of glyphs
-PATH_CHARS = ["a", " ", "%", "#", "?", "+", "&", "é", "\U0001F600", "\u0301", "\u212b"]
+PATH_CHARS = ["a", " ", "%", "#", "?", "+", "&", "é", "\U0001F600", "\u0301", "\u212b", "\\"]   # (a backslash is an ordinary character of a POSIX file name)
 URI_OK = re.compile(r"^file://(?:/|[A-Za-z0-9._~!$&'()*+,;=:@-]|%[0-9A-Fa-f]{2})*$")
 
 
